@@ -32,7 +32,12 @@ Names  == Users \cup {"ux", "other"}
 Absent == [pw |-> "-", sch |-> "-"]
 NoId   == [u |-> "-", v |-> "-"]
 
-Norm(sp) == IF sp.u \in {"ua", "ub", "ux"} THEN sp.u ELSE "invalid"
+(* v = "fold": a string that simple case folding (strings.EqualFold) equates with a
+   spelling of u but that the promised normalisation keeps apart - final sigma
+   U+03C2 for sigma U+03C3 - i.e. the name of ANOTHER account ("twin") *)
+Norm(sp) == IF sp.u \in {"ua", "ub", "ux"}
+            THEN (IF sp.v = "fold" THEN "twin" ELSE sp.u)
+            ELSE "invalid"
 
 (* ua = "zoë", ub = "zoë@example.org", ux = "mallory" in the harness.     *)
 MapIds == {"none", "identity", "s_ab", "s_swap", "s_id", "s_ba", "s_proj",
@@ -88,22 +93,27 @@ ObsDelete(o, sp, res) ==
   THEN [Z(o) EXCEPT !.ref[Norm(sp)] = Absent] ELSE Z(o)
 
 (* one SASL exchange.  az: "empty" | "same" (authzid = the authcid string) |  *)
-(* "variant" (another spelling of the same user) | "other" (another user)     *)
-Auth1(o, mapid, sp, pw, az, ok) ==
+(* "variant" (another spelling of the same user) | "other" (another user) |   *)
+(* "fold" (another account whose name is fold-equal to the authcid).          *)
+(* id = the identity handed to the session on success: it must name the       *)
+(* authenticated account (the supplied user name, whatever the user-name map  *)
+(* does to find the credentials).                                             *)
+Auth1(o, mapid, sp, pw, az, ok, id) ==
   LET cur == Cur(o.ref, mapid, sp, pw)
       o1  == V(o,  ok => cur, "AcceptedNotCurrent")
       o2  == V(o1, (az \in {"empty", "same"} /\ cur) => ok, "RefusedCurrent")
-  IN  V(o2, (az = "other") => ~ok, "AuthzidMismatchAccepted")
+      o3  == V(o2, (az \in {"other", "fold"}) => ~ok, "AuthzidMismatchAccepted")
+  IN  V(o3, ok => SameId(id, sp), "IdentityNotAuthenticated")
 
-ObsAuth(o, mapid, sp, pw, az, ok) == Auth1(Z(o), mapid, sp, pw, az, ok)
+ObsAuth(o, mapid, sp, pw, az, ok, id) == Auth1(Z(o), mapid, sp, pw, az, ok, id)
 
 (* module.PlainAuth.AuthPlain of the credential table called directly (no SASL  *)
 (* front-end, hence no user-name map): pass_table normalises the name itself  *)
-ObsDirect(o, sp, pw, ok) == Auth1(Z(o), "none", sp, pw, "empty", ok)
+ObsDirect(o, sp, pw, ok) == Auth1(Z(o), "none", sp, pw, "empty", ok, sp)   \* no identity is reported
 
 (* PLAIN and LOGIN with the same credentials on the same table *)
 ObsPair(o, mapid, sp, pw, pok, pid, lok, lid) ==
-  LET o1 == Auth1(Auth1(Z(o), mapid, sp, pw, "empty", pok), mapid, sp, pw, "empty", lok)
+  LET o1 == Auth1(Auth1(Z(o), mapid, sp, pw, "empty", pok, pid), mapid, sp, pw, "empty", lok, lid)
       o2 == V(o1, pok = lok, "MechDecisionDisagree")
   IN  V(o2, (pok /\ lok) => SameId(pid, lid), "MechIdentityDisagree")
 
@@ -111,6 +121,6 @@ ObsPair(o, mapid, sp, pw, pok, pid, lok, lid) ==
 ObsSOpen(o)  == [Z(o) EXCEPT !.sawAuth = FALSE]
 ObsSAuth(o, mapid, sp, pw, res) ==
   IF res = "already" THEN Z(o)
-  ELSE [Auth1(Z(o), mapid, sp, pw, "empty", res = "ok") EXCEPT !.sawAuth = @ \/ (res = "ok")]
+  ELSE [Auth1(Z(o), mapid, sp, pw, "empty", res = "ok", sp) EXCEPT !.sawAuth = @ \/ (res = "ok")]
 ObsSMail(o, res) == V(Z(o), (res = "ok") => o.sawAuth, "MailBeforeAuth")
 =============================================================================
